@@ -276,6 +276,7 @@ SELF_LINKS = [0]
 
 
 PERMUTED_KEYS = [0]
+ZERO_KEYS = [0]         # identifying integer / real attributes given the value zero
 
 
 def resolved_population(rng, schema, max_inst=6, unset=True):
@@ -291,6 +292,7 @@ def resolved_population(rng, schema, max_inst=6, unset=True):
     types = dict(((k, a), ty) for k, attrs in schema.classes for a, ty in attrs)
     referential = set((r.src, a) for r in schema.rops for a in r.src_keys)
     counter = [0]
+    zeroed = set()
     for kind, attrs in schema.classes:
         for i in range(rng.randint(0, max_inst)):
             row = {}
@@ -300,6 +302,11 @@ def resolved_population(rng, schema, max_inst=6, unset=True):
                 elif (kind, a) in ident:
                     counter[0] += 1
                     row[a] = unique_key_value(rng, ty, counter[0])
+                    if ty.upper() in ('INTEGER', 'REAL') and (kind, a) not in zeroed and rng.random() < 0.2:
+                        # integers and reals have no null: zero is a key value like any other (once per attribute)
+                        zeroed.add((kind, a))
+                        row[a] = 0 if ty.upper() == 'INTEGER' else 0.0
+                        ZERO_KEYS[0] += 1
                 else:
                     row[a] = None if (unset and rng.random() < 0.08) else random_value(rng, ty)
             pop.rows[kind].append(row)
